@@ -35,7 +35,7 @@ func init() {
 		Run:            run,
 		MinEvaluations: map[string]int{"quick": 3000000, "thorough": 50000000},
 		MinNontrivial:  map[string]int{"quick": 30000, "thorough": 1000000},
-		RequiredObs: []string{"structure_walks", "header_counts_read", "lookups_of_non_members", "lookups_of_members", "adds_rejected_as_expected", "adds_accepted", "histories_finished",
+		RequiredObs: []string{"structure_walks", "header_counts_read", "lookups_of_non_members", "lookups_of_members", "adds_rejected_as_expected", "adds_accepted", "histories_finished", "sets_whose_input_slices_were_overwritten_after_New",
 			"sets_with_empty_word", "sets_alphabet>=128", "exhaustive:all 2^15 subsets of the 15 words of length<=3 over {a,b}"},
 	})
 }
@@ -60,6 +60,16 @@ func checkSet(c *engine.Ctx, workload, callKey string, set *refdawg.Set, probes 
 	if err != nil || d == nil {
 		c.Violation("dawg.New|error|"+witness, detail, fmt.Sprintf("err=%v dawg=%v", err, d != nil), "a Dawg and no error: the words are strictly increasing")
 		return false
+	}
+	// the slices handed to New belong to the caller again: for half of the sets they are overwritten before anything is checked
+	if set.Hash()%2 == 0 {
+		for _, w := range words {
+			for i := range w {
+				w[i] = '#'
+			}
+		}
+		detail["caller_overwrote_the_word_slices_after_New"] = true
+		c.Obs("sets_whose_input_slices_were_overwritten_after_New", 1)
 	}
 	f, pi, api := dawgx.FullCheck(c, callKey, d, set, dawgx.CheckOpts{Probes: probes})
 	if f != nil || pi != nil {
